@@ -1,5 +1,6 @@
 //! C09, IntVec<T> for the eight element types and the three constructors: oracle against the input slice,
-//! plus the observation record for the Coq model of the analysis + raw / min-max / delta encodings.
+//! plus the observation record (len, data+index bytes, gets) replayed in the Coq model coq/C09/ModelIntVec.v
+//! (analyses, raw / min-max / block / delta encodings, both compression paths, signed mapping).
 use super::Ctx;
 use crate::util::*;
 use serde_json::json;
